@@ -2,6 +2,7 @@ package props
 
 import (
 	"bytes"
+	"context"
 	"encoding/json"
 	"fmt"
 	"hash/fnv"
@@ -90,6 +91,7 @@ type c20Build struct {
 	fresh      string
 	nEntry     int
 	freshVar   string
+	syncFree   bool
 	stepBudget int64
 }
 
@@ -252,7 +254,11 @@ func (b *c20Build) runShards(r *core.Rec, n int, mk func(shard int) []string) {
 			sem <- struct{}{}
 			defer func() { <-sem }()
 			cmd := exec.Command(b.h, mk(s)...)
-			cmd.Env = append(os.Environ(), "C20_FRESH="+b.fresh, "C20_FRESHVAR="+b.freshVar, "GOMAXPROCS=1", "C20_STEP_BUDGET="+strconv.FormatInt(b.stepBudget, 10))
+			sf := "1"
+			if !b.syncFree {
+				sf = "0"
+			}
+			cmd.Env = append(os.Environ(), "C20_SYNCFREE="+sf, "C20_FRESH="+b.fresh, "C20_FRESHVAR="+b.freshVar, "GOMAXPROCS=1", "C20_STEP_BUDGET="+strconv.FormatInt(b.stepBudget, 10))
 			var stderr bytes.Buffer
 			cmd.Stderr = &stderr
 			outb, err := cmd.Output()
@@ -342,8 +348,15 @@ func c20Run(c *core.Ctx) {
 		r.Note("range-over-map sites (iteration order is runtime-randomised; covered by repetition only): " + strings.Join(g.MapRanges, ", "))
 	}
 	syncFree := len(g.SyncUses) == 0
+	b.syncFree = syncFree
+	schedulable := len(g.Unmodelled) == 0
 	if !syncFree {
-		r.Note("the library now uses synchronisation primitives: " + strings.Join(g.SyncUses, "; ") + " — real blocking primitives are not modelled by the cooperative scheduler; the interleaving pass is skipped and only the -race pass judges concurrency")
+		r.Note("the library uses synchronisation primitives: " + strings.Join(g.SyncUses, "; "))
+		if schedulable {
+			r.Note("package sync is replaced by a cooperative shim (Mutex, RWMutex, Once) inside the instrumented copy, so blocking is visible to the scheduler and 'no enabled goroutine' is reported as deadlock; a write to shared state is then no longer by itself a race, and every thread combination that writes shared state is explored")
+		} else {
+			r.Note("channels/select/go statements are not modelled by the cooperative scheduler: the interleaving pass is skipped and only the -race pass judges concurrency")
+		}
 	}
 	// uncovered exports (reported, never an alarm)
 	cov := map[string]bool{}
@@ -380,7 +393,7 @@ func c20Run(c *core.Ctx) {
 		r.Note("every call of every history maps the initial package state to itself: the reachable package-state space is a single state, so no history can influence a later call")
 	}
 	// (3) schedules
-	if syncFree {
+	if schedulable {
 		b.runShards(r, 32, func(s int) []string { return []string{"sched", strconv.Itoa(bound), "2", strconv.Itoa(s), "32", "ff"} })
 		r.Bound("schedules_f||f", fmt.Sprintf("every entry against itself on shared fixtures: all schedules with <=%d preemptions (combinations that exhaust the per-combination step budget are listed in notes as not completed)", bound))
 		if c.Thorough() {
@@ -406,11 +419,24 @@ func c20Run(c *core.Ctx) {
 }
 
 func c20Race(b *c20Build, r *core.Rec, rounds int) {
-	cmd := exec.Command(b.race, "16", strconv.Itoa(rounds))
+	limit := 10 * time.Minute
+	if v, err := strconv.Atoi(os.Getenv("C20_RACE_TIMEOUT_S")); err == nil && v > 0 {
+		limit = time.Duration(v) * time.Second
+	}
+	ctx, cancel := context.WithTimeout(context.Background(), limit)
+	defer cancel()
+	cmd := exec.CommandContext(ctx, b.race, "16", strconv.Itoa(rounds))
 	cmd.Env = append(os.Environ(), "GORACE=halt_on_error=1 exitcode=66", "GOMAXPROCS=16")
 	var stdout, stderr bytes.Buffer
 	cmd.Stdout, cmd.Stderr = &stdout, &stderr
 	err := cmd.Run()
+	if ctx.Err() != nil {
+		// Normally this pass takes seconds. A free-running harness that does not finish in
+		// 10 minutes is most likely deadlocked, but a wall-clock limit is not an oracle:
+		// no verdict from this pass (the scheduler pass reports deadlocks deterministically).
+		r.Incomplete = append(r.Incomplete, "the free-running -race pass did not finish within 10 minutes (deadlock or livelock between concurrent calls is likely); no verdict from this pass")
+		return
+	}
 	raw, _ := json.Marshal(C20Case{Mode: "race"})
 	r.Bulk(1, 1)
 	se := stderr.String()
@@ -475,7 +501,11 @@ func c20Replay(raw json.RawMessage, r *core.Rec) error {
 		return nil
 	}
 	cmd := exec.Command(b.h, "replay", string(raw))
-	cmd.Env = append(os.Environ(), "C20_FRESH="+b.fresh)
+	sf := "1"
+	if len(b.gen.SyncUses) != 0 {
+		sf = "0"
+	}
+	cmd.Env = append(os.Environ(), "C20_FRESH="+b.fresh, "C20_SYNCFREE="+sf)
 	outb, err := cmd.Output()
 	var o c20Out
 	if jerr := json.Unmarshal(lastLine(outb), &o); jerr != nil {
